@@ -64,7 +64,8 @@ def gen_case(rng):
         v[np.array([rng.random() < 0.25 for _ in range(v.size)]).reshape(v.shape)] = np.nan
         nanp = 'some'
     c = {"variant": variant, "nan": nanp, "a": sp, "k": k, "new": new_points(rng, lab), "by_pos": rng.random() < 0.5,
-         "form": rng.choice(['list', 'array', 'Axis']), "fills": rng.choice([None, None, 'left', 'right', 'both'])}
+         "form": rng.choice(['list', 'array', 'Axis', 'Axis-othername']), "fills": rng.choice([None, None, 'left', 'right', 'both']),
+         "zero_fills": rng.random() < 0.3, "neg_pos": rng.random() < 0.3}
     c["issorted"] = True if (model.strict_dir(lab) in ('inc', 'any') and rng.random() < 0.3) else None
     if variant == 'dataset':
         # a second variable lacking the axis and one having it in another position
@@ -115,9 +116,9 @@ def check(case, ctx):
     kw = {}
     left = right = float('nan')
     if fills in ('left', 'both'):
-        kw["left"] = left = -77.5
+        kw["left"] = left = (0 if case.get("zero_fills") else -77.5)          # a fill value of zero is a fill value
     if fills in ('right', 'both'):
-        kw["right"] = right = 88.5
+        kw["right"] = right = (0.0 if case.get("zero_fills") else 88.5)
     lo, hi = min(lab), max(lab)
     if any(x < lo or x > hi for x in new):
         ctx.outcomes['out-of-range'] += 1
@@ -140,8 +141,9 @@ def check(case, ctx):
         common.expect(ctx, ID, "like", label, res, exc, exp=exp, **tol)
         return klass
     arr = np.array(new, dtype=float)
-    arg = list(new) if case["form"] == 'list' else arr if case["form"] == 'array' else da.Axis(arr, d)
-    axis = k if case["by_pos"] else d
+    # (an Axis object is a vector of coordinates like any other: the axis to interpolate along is the one asked for)
+    arg = list(new) if case["form"] == 'list' else arr if case["form"] == 'array' else da.Axis(arr, d if case["form"] == 'Axis' else ('x0' if d != 'x0' else 'other'))
+    axis = (k - m.ndim if case.get("neg_pos") else k) if case["by_pos"] else d
     if case["issorted"]:
         kw["issorted"] = True
     exp = np_interp_axis(m, k, new, left, right)
@@ -168,7 +170,7 @@ def check(case, ctx):
         specs[name] = e
     dsaxis = list(ds.dims).index(d) if case["by_pos"] else d
     label = "ds.interp_axis(%s, axis=%r%s) labels[%r]=%s vars=%s" % (codec.short(new, 80), dsaxis, kw or "", d, codec.short(lab, 60), {n: tuple(s["dims"]) for n, s in specs.items()})
-    res, exc = ctx.call(label, lambda: ds.interp_axis(arg if case["form"] != 'Axis' else arr, axis=dsaxis, **kw), operands=(ds,))
+    res, exc = ctx.call(label, lambda: ds.interp_axis(arg if not case["form"].startswith('Axis') else arr, axis=dsaxis, **kw), operands=(ds,))
     if exc is not None:
         ctx.v(ID, "dataset-raised:" + type(exc).__name__, "%s raised %s: %s" % (label, type(exc).__name__, str(exc)[:200]))
         return klass
